@@ -52,6 +52,10 @@ def _c10_folds(ctx, res):
     r2.check_folds(ctx, res)
 
 
+def _no_narrowing(ctx, res):
+    r2.check_no_operand_narrowing(ctx, res)
+
+
 T_R2 = "MIR dataflow over operator impls (forwarder classification, operand provenance, cast losslessness, forwarding-graph acyclicity, reviewed leaf table)"
 T_R3 = "CFG dominance / guard-or-forward analysis over MIR in dev and release configurations (mandatory guards, checked-API guard dominance, divisor non-zero provenance)"
 
@@ -130,7 +134,7 @@ PROPS = {
         "technique": "interprocedural field read-set analysis over MIR (necessity rule)",
     },
     "C10": {
-        "clauses": [_c10_forwarders, _c10_signed, _c10_folds, r5check.check_arithmetic(None, 85), r5check.check_powers, r5check.check_upow],
+        "clauses": [_c10_forwarders, _c10_signed, _c10_folds, _no_narrowing, r5check.check_arithmetic(None, 85), r5check.check_powers, r5check.check_upow],
         "not_decided": "digit splitting/padding inside the unsigned scalar leaves and the digit arithmetic of the leaf implementations",
         "level_text": "Every one of the ~1286 operator impl bodies is classified from its MIR: ~970 are proven pure forwarders (operands reach the "
         "callee in order - swapped only for commutative operators -, scalar promotions are value-preserving casts, the callee's result is the result, "
@@ -148,7 +152,7 @@ PROPS = {
         "technique": T_R3 + "; cross-configuration MIR diff with forward taint (cfg-taint)",
     },
     "C12": {
-        "clauses": [fam("Pow"), r5check.check_powers, r5check.check_upow],
+        "clauses": [fam("Pow"), _no_narrowing, r5check.check_powers, r5check.check_upow],
         "not_decided": "square-and-multiply arithmetic; 0^0 decision order of the BigUint exponent form",
         "level_text": "Decides: all Pow operator forms (by value / by reference, every exponent type) are verified forwarders or reviewed implementations.",
         "technique": T_R2,
